@@ -290,6 +290,7 @@ class PEval:
         self.lib, self.an, self.hook = lib, an, hook
         self.max_depth, self.fuel = max_depth, fuel
         self._impl_cache = {}
+        self._self_stack = []      # implementor types of the trait calls being evaluated (`Self` inside provided methods)
         self._accessor_copies = False
         self.panics = False      # set by rules that decide panic-freedom: a definite panic raises Panic instead of yielding UNKNOWN
         self.unknown_reasons = []
@@ -915,7 +916,31 @@ class PEval:
         if "fn" not in e and "fun" in e:
             f = self.ev(e["fun"], env, depth)
             return self.apply(f, args, depth)
-        return self.call_named(path, fname, args, e, depth)
+        # static dispatch on `Self` of a trait call whose implementor is not among the arguments (`DefaultVisitor::visit_block(..)`,
+        # `Self::visit_statement(..)` inside a provided method): the implementor's own override, if it has one
+        pushed = False
+        if e.get("trait") and e.get("gargs") and "resolved" not in e and not path.startswith("<"):
+            st = self.lib.ty_str(e["gargs"][0])
+            if st == "Self":
+                st = self._self_stack[-1] if self._self_stack else None
+            if st and "::" in st:
+                base = st.split("<", 1)[0]
+                key = ("#self", base, e["trait"], fname)
+                if key not in self._impl_cache:
+                    pre, suf = "<%s" % base, ">::%s" % fname
+                    mid = " as %s" % e["trait"]
+                    self._impl_cache[key] = next((f for k_, f in self.lib.fns.items() if k_.startswith(pre) and k_.endswith(suf) and mid in k_
+                                                  and k_[len(pre)] in "< " and thir.body_of(f)), None)
+                over = self._impl_cache[key]
+                if over is not None:
+                    path = over["path"]
+                self._self_stack.append(st)
+                pushed = True
+        try:
+            return self.call_named(path, fname, args, e, depth)
+        finally:
+            if pushed:
+                self._self_stack.pop()
 
     def call_named(self, path, fname, args, node, depth):
         if self.hook is not None:
@@ -997,14 +1022,44 @@ class PEval:
             dyn = [v0.adt] if isinstance(v0, (Struct, Enum)) and not v0.adt.startswith("#") else []
             if dyn and dyn[0] == ty_to:
                 return v0
-            for tf in [ty_from, raw_from, "&" + ty_from, "&'static " + ty_from] + dyn:
+            # a primitive handed to a generic `E: Into<Y>` parameter: its dynamic kind names the impl
+            prim = ["bool"] if isinstance(v0, bool) else (["&str", "alloc::string::String", "&alloc::string::String"] if isinstance(v0, str) else
+                                                         (["f64"] if isinstance(v0, float) else []))
+            for tf in [ty_from, raw_from, "&" + ty_from, "&'static " + ty_from] + dyn + ([] if "::" in ty_from or ty_from in ("bool", "f64", "str") else prim):
                 cand = self.lib.fn("<%s as core::convert::From<%s>>::from" % (ty_to, tf))
                 if cand is not None and thir.body_of(cand):
                     return self.call_fn(cand, args, depth + 1)
+            if "::" in ty_to and v0 is not UNKNOWN:
+                # a blanket `impl<G: Into<..>> From<G> for Y`: the only generic From of the target type
+                key = ("#genfrom", ty_to)
+                if key not in self._impl_cache:
+                    pre_ = "<%s as core::convert::From<" % ty_to
+                    gens_ = [f for k_, f in self.lib.fns.items() if k_.startswith(pre_) and k_.endswith(">>::from") and thir.body_of(f)
+                             and re.fullmatch(r"[A-Z][A-Za-z0-9]*", k_[len(pre_):-len(">>::from")])]
+                    self._impl_cache[key] = gens_[0] if len(gens_) == 1 else None
+                if self._impl_cache[key] is not None and not (isinstance(v0, (Struct, Enum)) and v0.adt == ty_to):
+                    return self.call_fn(self._impl_cache[key], args, depth + 1)
             if dyn and "::" not in ty_to and ty_to not in ("str", "bool", "char") and not re.fullmatch(r"[iuf](8|16|32|64|128|size)", ty_to or ""):
                 # the target is a generic parameter (`T: From<X>`): decided where the value is stored (see `store`)
                 return Struct("#Into", {"v": v0})
         local = self.lib.fn(path)
+        if local is not None and thir.body_of(local) and args and local.get("in_trait") and not path.startswith("<") \
+                and (local["thir"].get("params") or [{}])[0].get("self"):
+            # a provided trait method called on a generic receiver (`T::process_block(processor, ..)`): the receiver's own
+            # implementation wins over the trait's default body
+            recv = deref(args[0])
+            if isinstance(recv, (Struct, Enum)) and not recv.adt.startswith("#"):
+                tr, meth = path.rsplit("::", 1)
+                key = ("#recv", recv.adt, tr, meth)
+                if key not in self._impl_cache:
+                    cand = self.lib.fn("<%s as %s>::%s" % (recv.adt, tr, meth))
+                    if cand is None:
+                        pre, suf = "<" + recv.adt + "<", " as %s>::%s" % (tr, meth)
+                        cand = next((f for k_, f in self.lib.fns.items() if k_.startswith(pre) and k_.endswith(suf)), None)
+                    self._impl_cache[key] = cand if cand is not None and thir.body_of(cand) else None
+                if self._impl_cache[key] is not None:
+                    local = self._impl_cache[key]
+                    path = local["path"]
         if (local is None or not thir.body_of(local)) and args and not path.startswith("<"):
             # a trait method called on `Self` / a generic: dispatch on the abstract receiver's type
             recv = deref(args[0])
@@ -1158,6 +1213,16 @@ class PEval:
                 if fname == "take" and isinstance(raw[0], Enum) and raw[0].adt == OPTION:
                     raw[0].variant, raw[0].fields = "None", {}
                     return old
+                if fname == "take" and isinstance(raw[0], (Struct, Enum)) and not raw[0].adt.startswith("#"):
+                    # a local type: its own `Default` impl (derived ones have bodies too) gives the value left behind
+                    dflt = self.lib.fn("<%s as core::default::Default>::default" % raw[0].adt)
+                    if dflt is not None and thir.body_of(dflt):
+                        nv = self.call_fn(dflt, [], depth + 1)
+                        if isinstance(nv, type(raw[0])) and nv.adt == raw[0].adt:
+                            if isinstance(raw[0], Enum):
+                                raw[0].variant = nv.variant
+                            raw[0].fields = dict(nv.fields)
+                            return old
                 return self.unknown("mem::%s of this value" % fname)
         # ---- format!(..) ------------------------------------------------------------------------------
         if "fmt::rt::Argument" in path and fname.startswith("new_") and len(args) == 1:
